@@ -299,7 +299,11 @@ def clone_blank_node(
         return cloned_bnode
     if RDF_first in predicates:
         # don't increase recursion here, we're not actually going any deeper in the graph, just sideways
-        return clone_list(graph, bnode, target_graph, keepid=keepid, recursion=recursion)
+        try:
+            return clone_list(graph, bnode, target_graph, keepid=keepid, recursion=recursion)
+        except ValueError:
+            # the rdf:rest chain runs in a circle: copy the node like any other blank node (to the depth limit)
+            pass
     for p in predicates:
         cloned_p = clone_node(graph, p, target_graph, recursion=recursion + 1)
         objs = list(graph.objects(bnode, p))
